@@ -173,6 +173,121 @@ impl ConnectionLimits {
     }
 }
 
+#[cfg(feature = "verif")]
+impl ConnectionLimits {
+    /// Verification hook: the configured (incoming, outgoing) maxima.
+    pub fn verif_config(&self) -> (Option<usize>, Option<usize>) {
+        (
+            self.config.max_incoming_connections,
+            self.config.max_outgoing_connections,
+        )
+    }
+}
+
+/// Verification hook: the manager's [`ConnectionLimits`] behind a wrapper that writes every call of
+/// the five methods — arguments and result, in call order — to a per-thread log, and passes
+/// everything else through (`Deref`). With the feature off the manager holds the plain object.
+///
+/// One entry `[method, a, b, result, value]`: method 0 `on_dial_address`, 1 `on_incoming`,
+/// 2 `can_accept_connection(a = is_listener)`, 3 `accept_established_connection(a = id, b =
+/// is_listener)`, 4 `on_connection_closed(a = id)`; result 0 `Ok(())` / unit, 1 `Ok(usize::MAX)`,
+/// 2 `Ok(value)`, 3 `MaxIncomingConnectionsExceeded`, 4 `MaxOutgoingConnectionsExceeded`.
+#[cfg(feature = "verif")]
+pub mod verif_log {
+    use super::{ConnectionLimits, ConnectionLimitsConfig, ConnectionLimitsError};
+    use crate::types::ConnectionId;
+
+    use std::cell::RefCell;
+
+    thread_local! {
+        static LOG: RefCell<Vec<[usize; 5]>> = const { RefCell::new(Vec::new()) };
+    }
+
+    fn push(entry: [usize; 5]) {
+        LOG.with(|log| log.borrow_mut().push(entry));
+    }
+
+    /// The entries logged on this thread since the last call.
+    pub fn take() -> Vec<[usize; 5]> {
+        LOG.with(|log| std::mem::take(&mut *log.borrow_mut()))
+    }
+
+    fn error_code(error: &ConnectionLimitsError) -> usize {
+        match error {
+            ConnectionLimitsError::MaxIncomingConnectionsExceeded => 3,
+            ConnectionLimitsError::MaxOutgoingConnectionsExceeded => 4,
+        }
+    }
+
+    #[derive(Debug, Clone)]
+    pub struct LoggedLimits(ConnectionLimits);
+
+    impl LoggedLimits {
+        pub fn new(config: ConnectionLimitsConfig) -> Self {
+            Self(ConnectionLimits::new(config))
+        }
+
+        pub fn on_dial_address(&mut self) -> Result<usize, ConnectionLimitsError> {
+            let result = self.0.on_dial_address();
+            push(match &result {
+                Ok(usize::MAX) => [0, 0, 0, 1, 0],
+                Ok(value) => [0, 0, 0, 2, *value],
+                Err(error) => [0, 0, 0, error_code(error), 0],
+            });
+            result
+        }
+
+        pub fn on_incoming(&mut self) -> Result<(), ConnectionLimitsError> {
+            let result = self.0.on_incoming();
+            push([1, 0, 0, result.as_ref().map_or_else(error_code, |_| 0), 0]);
+            result
+        }
+
+        pub fn can_accept_connection(
+            &mut self,
+            is_listener: bool,
+        ) -> Result<(), ConnectionLimitsError> {
+            let result = self.0.can_accept_connection(is_listener);
+            push([
+                2,
+                is_listener as usize,
+                0,
+                result.as_ref().map_or_else(error_code, |_| 0),
+                0,
+            ]);
+            result
+        }
+
+        pub fn accept_established_connection(
+            &mut self,
+            connection_id: ConnectionId,
+            is_listener: bool,
+        ) {
+            push([3, connection_id.verif_as_usize(), is_listener as usize, 0, 0]);
+            self.0.accept_established_connection(connection_id, is_listener)
+        }
+
+        pub fn on_connection_closed(&mut self, connection_id: ConnectionId) {
+            push([4, connection_id.verif_as_usize(), 0, 0, 0]);
+            self.0.on_connection_closed(connection_id)
+        }
+    }
+
+    impl std::ops::Deref for LoggedLimits {
+        type Target = ConnectionLimits;
+
+        fn deref(&self) -> &ConnectionLimits {
+            &self.0
+        }
+    }
+
+    impl std::ops::DerefMut for LoggedLimits {
+        fn deref_mut(&mut self) -> &mut ConnectionLimits {
+            &mut self.0
+        }
+    }
+}
+
 #[cfg(test)]
 mod tests {
     use super::*;
